@@ -237,6 +237,8 @@ def run_once(dataset, cfg: dict, chooser) -> dict:
               repeat=bool(cfg.get("repeat", False)), process_record=pr)
     if iface != "sync":
         kw["file_parallelism"] = cfg["par"]
+    if iface == "rust" and "file_parallelism" not in kw:
+        kw["file_parallelism"] = 2
     _OPENS.update(on=True, root=str(dataset.path), n=0)
 
     def consume():
@@ -252,8 +254,9 @@ def run_once(dataset, cfg: dict, chooser) -> dict:
 
             asyncio.run(go())
         else:
-            fn = (dataset.as_numpy_iterator if iface == "sync" else
-                  dataset.as_numpy_iterator_concurrent)
+            fn = {"sync": dataset.as_numpy_iterator,
+                  "concurrent": dataset.as_numpy_iterator_concurrent,
+                  "rust": dataset.as_numpy_iterator_rust}[iface]
             gen = fn(**kw)
             for e in gen:
                 got.append(e[1])
@@ -265,7 +268,8 @@ def run_once(dataset, cfg: dict, chooser) -> dict:
 
     s = sched.Scheduler(chooser, watched_files=(LAZY_POOL,),
                         watched_mods=("vf_controlled_lazy_pool_ds",),
-                        use_cache=False, every_switch_costs=True)
+                        use_cache=False, every_switch_costs=True,
+                        workers_first=bool(cfg.get("workers_first")))
     with seams(chooser):
         res, exc = s.run_main(consume)
     _OPENS["on"] = False
@@ -288,7 +292,8 @@ def judge(cfg: dict, r: dict, want: list, sync_order: list, nshards: int):
     """Returns [(property, symptom, message)]."""
     bad = []
     desc = (f"{cfg['iface']} shuffle={cfg['shuffle']} "
-            f"file_parallelism={cfg.get('par')}")
+            f"file_parallelism={cfg.get('par')}" +
+            (" (eager workers)" if cfg.get("workers_first") else ""))
     if r["deadlock"]:
         bad.append(("C02", "deadlock",
                     f"{desc}: deadlock, blocked={r['blocked']}"))
@@ -319,6 +324,16 @@ def judge(cfg: dict, r: dict, want: list, sync_order: list, nshards: int):
             bad.append(("C19", "foreign",
                         f"{desc}: foreign examples "
                         f"{sorted(set(got) - set(want))}"))
+        if cfg["iface"] == "rust" and cfg.get("repeat") and want:
+            N = len(want)
+            for b in range(0, len(got) - N + 1, N):
+                if collections.Counter(got[b:b + N]) != collections.Counter(
+                        want):
+                    bad.append(("C19", "epoch",
+                                f"{desc}: epoch {b // N} of the Rust stream "
+                                f"= {got[b:b + N]} is not a permutation of "
+                                f"the split"))
+                    break
         if cfg["shuffle"] == 0 and cfg.get("repeat") and want:
             exp = [sync_order[i % len(sync_order)] for i in range(len(got))]
             if got != exp:
@@ -445,6 +460,10 @@ def plan(tier: str, what: str) -> list[tuple]:
                     for par in (1, 3):
                         cfgs.append(dict(split=split, iface="async",
                                          shuffle=sh, par=par))
+                if dsfamily.RECIPES[name][0] == "fb":
+                    for sh in (2, 9):
+                        cfgs.append(dict(split=split, iface="rust",
+                                         shuffle=sh, par=2))
             else:
                 for sh in (0, 2):
                     for par in (1, 2):
@@ -457,6 +476,22 @@ def plan(tier: str, what: str) -> list[tuple]:
                                      take=8, repeat=True))
                     cfgs.append(dict(split=split, iface="async", shuffle=sh,
                                      par=2, take=8, repeat=True))
+                if dsfamily.RECIPES[name][0] == "fb":
+                    for sh in (0, 2):
+                        cfgs.append(dict(split=split, iface="rust",
+                                         shuffle=sh, par=2, take=16,
+                                         repeat=True))
+        if what != "once" and name == "flat":
+            # many small shards, slow consumer: workers run whenever they can
+            many = []
+            for sh in (0, 3):
+                for par in (2, 4):
+                    for rep in (False, True):
+                        many.append(dict(split="train", iface="concurrent",
+                                         shuffle=sh, par=par, take=16,
+                                         repeat=rep, workers_first=True))
+            for i in range(0, len(many), 2):
+                out.append(("many64", many[i:i + 2], 1, 20000))
         # split the work of one recipe over several workers
         for i in range(0, len(cfgs), 4):
             b = bound + 1 if name == "flat" else bound
